@@ -311,6 +311,7 @@ K3_WITNESS_C03 = dict(cls="witness-K3", settings={}, regions=[["rect", 360, 325,
 
 class C01(MotionMonitor):
     prop = "C01"
+    quick_cases = 2500
     rule = ("random programs (abstract tool path, then encoded) through the real handleGcode/handleAtCommand; the emitted "
             "stream is executed on reference printer A, the unfiltered one on B; a case is non-trivial when at least one "
             "reference episode opened AND closed and no violation was found; distinct = distinct digest of (settings, regions, steps)")
@@ -336,6 +337,7 @@ class C01(MotionMonitor):
 
 class C03(MotionMonitor):
     prop = "C03"
+    quick_cases = 2500
     rule = ("as C01; oracle compares printer A with printer B after every move whose points are all outside; non-trivial = "
             "a closing step whose episode's entering move changed Z, or that happened in relative or inch encoding")
     assumptions = C01.assumptions
@@ -375,6 +377,7 @@ class ExtrusionMonitor(MotionMonitor):
 
 class C04(ExtrusionMonitor):
     prop = "C04"
+    quick_cases = 3000
     rule = ("programs in absolute extrusion mode with matched equal-length retract/recover cycles (E-only or firmware), G92 E "
             "anywhere, mm/inch; oracle compares E and pushed filament of printer A vs B; non-trivial = an episode closed "
             "while a recovery was owed (hooked lastRetraction.recoverExcluded at the closing step)")
@@ -400,6 +403,7 @@ class C04(ExtrusionMonitor):
 
 class C05(ExtrusionMonitor):
     prop = "C05"
+    quick_cases = 3000
     rule = ("as C04 with long alternations of enter/retract/recover/exit; oracle compares the physical retraction depth (high-water "
             "mark minus position) of A and B and G10/G11 parity/parameters; non-trivial = a retraction executed inside an episode "
             "and an owed recovery injected outside (a forwarded command preceded by generated commands)")
@@ -442,6 +446,7 @@ def at_table(rnd):
 
 class C14(MotionMonitor):
     prop = "C14"
+    quick_cases = 3000
     rule = ("programs with enable/disable/other @-commands at arbitrary points, default and custom action tables, sometimes a "
             "comm object that is streaming to SD; non-trivial = disable ... moves ... enable followed by a single-axis or relative move")
     assumptions = C01.assumptions
